@@ -1462,7 +1462,7 @@ type Area struct {
 func (a *Area) Marshal(nss *Namespaces, buffer []byte) int {
 	i := a.Tags.Marshal(TypeAndNamespaceInvalid, buffer)
 	i += a.Polygons.Marshal(CombineTypeAndNamespace(b6.FeatureTypePath, nss.ForType(b6.FeatureTypePath)), buffer[i:])
-	i += a.Relations.Marshal(CombineTypeAndNamespace(b6.FeatureTypePath, nss.ForType(b6.FeatureTypePath)), buffer[i:])
+	i += a.Relations.Marshal(CombineTypeAndNamespace(b6.FeatureTypeRelation, nss.ForType(b6.FeatureTypeRelation)), buffer[i:])
 	return i
 }
 
